@@ -392,6 +392,7 @@ theorem decode_spec (c : Code) (hc : TableOK c) (bytes : List Nat) (lo hi : Nat)
   have hRlen : (((allBits bytes).drop lo).take (hi - lo)).length = hi - lo := by
     simp only [List.length_take, List.length_drop, length_allBits]; omega
   unfold decodeRange
+  rw [if_neg (by omega)]
   by_cases hlt : lo < hi
   · obtain ⟨b, n, rest, he, hb, hn1, hn8, -, -, ht⟩ := chunks_first bytes (hi - lo + 1) lo hi hlt
     rw [he] at hspec ⊢
@@ -406,5 +407,10 @@ theorem decode_spec (c : Code) (hc : TableOK c) (bytes : List Nat) (lo hi : Nat)
     have := encodeBits_nil_of_empty c hc w hw
     subst this
     simp [decodeLoop_succ, restock]
+
+/-- a non-empty bit range reaching beyond the byte store is a panic (`self.bytes[..]` out of bounds) -/
+theorem decodeRange_out_of_bounds (c : Code) (bytes : List Nat) (lo hi : Nat) (h : lo < hi) (ho : 8 * bytes.length < hi) :
+    decodeRange c bytes lo hi = none := by
+  unfold decodeRange; rw [if_pos ⟨h, ho⟩]
 
 end FC.Huff
